@@ -40,6 +40,9 @@ func (m *Migrator) Migrate(body []byte, target uint) (newBody []byte, upgraded b
 	err = yaml.Unmarshal(body, &diskConf)
 	if err != nil {
 		return body, false, fmt.Errorf("parsing config file for upgrade: %w", err)
+	} else if diskConf == nil {
+		// A null document is decoded into a nil map, which cannot be modified.
+		diskConf = yobj{}
 	}
 
 	currentInt, _, err := fieldVal[int](diskConf, "schema_version")
